@@ -530,8 +530,8 @@ func ruleContainerCodec(w *World, r *Recorder, rule string, json bool) {
 		for _, p := range s.Paths {
 			n := 0
 			for _, ev := range p.St.events {
-				if ev.Kind == "store" {
-					ok, why = false, "stores "+ev.Loc
+				if ev.Kind == "store" && strings.HasSuffix(ev.Loc, ".values") {
+					ok, why = false, "assigns the element slice directly: "+ev.Loc
 				}
 				if ev.Kind != "call" {
 					continue
@@ -692,7 +692,7 @@ func c04Fidelity(w *World, r *Recorder) {
 	// container order
 	for _, fn := range w.Funcs {
 		if len(fn.TypeArgs()) > 0 && baseName(fn) == "Values" && fn.Signature.Recv() != nil {
-			rep := validatingWalk(w, fn, func(s ssa.Value) bool { return loadsField(s, "values") }, true)
+			rep := orderedCopyWalk(w, fn, func(s ssa.Value) bool { return loadsField(s, "values") })
 			r.Check(rep.OK, "C04-T5", fnKey(fn), w.FnPos(fn), "elements copied index for index (wire order)", rep.Why)
 		}
 	}
